@@ -120,6 +120,41 @@ func runC18(c *Ctx) {
 		}, true)
 		w := lf.search(searchSpec{avoid: pub, avoidEdges: parseFail, exits: true})
 		c.Check(w == nil && len(lf.Find(pub)) == 1 && len(parseFail) == 2, "one-per-message", "each message of a failed batch is dead-lettered once (skipped only when it cannot be decoded)", c.P.Pos(inner.Pos()), lf.describe(w))
+		// sender and receiver of each dead letter are derived from the message of the same iteration
+		msgObj := info.ObjectOf(inner.Value.(*ast.Ident))
+		derived := func(e ast.Expr, getter string) bool {
+			// e, possibly through one single-definition local declared inside the loop body, mentions <msg>.<getter>()
+			var fromMsg func(x ast.Expr, depth int) bool
+			fromMsg = func(x ast.Expr, depth int) bool {
+				found := false
+				ast.Inspect(x, func(n ast.Node) bool {
+					call, ok := n.(*ast.CallExpr)
+					if ok && isCallNamed(info, call, getter) {
+						if id, ok := ast.Unparen(recvExpr(call)).(*ast.Ident); ok && info.ObjectOf(id) == msgObj {
+							found = true
+						}
+					}
+					if id, ok := n.(*ast.Ident); ok && depth < 3 && !found {
+						obj := info.ObjectOf(id)
+						if obj != nil && obj.Pos() >= inner.Body.Pos() && obj.Pos() <= inner.Body.End() {
+							if def := singleLocalDef(info, fn.Decl, obj); def != nil && fromMsg(def, depth+1) {
+								found = true
+							}
+						}
+					}
+					return !found
+				})
+				return found
+			}
+			return fromMsg(e, 0)
+		}
+		for _, a := range lf.FindOnce(pub) {
+			call := a.N.(*ast.CallExpr)
+			okS := len(call.Args) >= 2 && derived(call.Args[0], "GetSender")
+			okR := len(call.Args) >= 2 && derived(call.Args[1], "GetReceiver")
+			c.Check(okS, "per-message-sender", "each dead letter of a failed batch carries the sender of its own message (resolved inside the iteration)", c.P.Pos(call.Pos()), "the sender handed to the dead letter is not derived from this iteration's message.GetSender()")
+			c.Check(okR, "per-message-receiver", "each dead letter of a failed batch carries the receiver of its own message", c.P.Pos(call.Pos()), "the receiver is not derived from this iteration's message.GetReceiver()")
+		}
 		hasBreak := false
 		ast.Inspect(inner.Body, func(n ast.Node) bool {
 			if br, ok := n.(*ast.BranchStmt); ok && br.Tok.String() == "break" {
